@@ -79,14 +79,23 @@ META = {
                   'findings/resolved/C13-resetdep-checker-change-drops-ignore.md; C13_pinned_resetdep_counterexample).  '
                   '"Executes on the next run" is read for tasks whose decision consults saved state (file_dep), DESIGN '
                   '§5.  The monitor is a Python predicate (set/equality tests on dumps and reports) over specification '
-                  'sets and the reset-dep record predicate evaluated by the Lean driver.',
-    'rule': 'task sets of 2-5 creators (45% with a group of 1-2 sub-tasks), 1-2 source files, edges to earlier tasks: '
+                  'sets and the reset-dep record predicate evaluated by the Lean driver.  Wave 4 shapes and their tie: private '
+                  'names, option spellings, DB location (sub-directory / absolute / command line options) and commands on a '
+                  'DB that does not exist are inside the model unchanged; value-saving uptodate helpers (timeout, '
+                  'check_timestamp_unchanged, an UptodateCalculator subclass) are tied through the run_once item of M2 '
+                  '(same decision rule and saved-value life cycle, value keys translated), config_changed(dict) through '
+                  'the cfg item, tuple / task-only / truthy callables through the custom item; a creator delayed by '
+                  'create_after is modelled as evaluated by the three commands, its `executed` task being a run-time '
+                  'dependency of the creator\'s own task (calc_dep edge kind); with creates= the commands see '
+                  'placeholders (open finding delayed-creates-placeholder): K skipped and counted, monitor kept; a DB in a '
+                  'missing directory is monitors-only (no command may exit 0), counted.',
+    'rule': 'task sets of 2-5 creators (45% with a group of 1-2 sub-tasks; 15-20% private `_x` names; 22% with one creator delayed by create_after, a third of those with creates=; 40% of uptodate lists drawn from tuple / task-only / truthy callables, config_changed(dict), timeout, check_timestamp_unchanged, an UptodateCalculator subclass), DB file plain / in a sub-directory / absolute / given by --db-file --backend --check_file_uptodate on every command line / in a missing directory (3%, monitors only); 8% without an initial run (commands meet a DB that does not exist); forget options in both spellings (-s/--follow-sub, -a/--all, --disable-default/--enable-default); 1-2 source files, edges to earlier tasks: '
             'task_dep p=.3, setup p=.25, calc_dep p=.18 (provider with a file_dep) / .06, target->file_dep p=.3; 40% with default_tasks; a set-up prefix (write sources, '
             'full run) then 3-8 ops: runs (selection, -a, -c, failing actions), forget in 12 argument forms (names, -s, '
             '--all, --disable-default, none, unknown names), ignore, reset-dep (named / all), edits / touches / '
             'deletions of sources and targets, each command mostly followed by a run; 10% of md5 cases change the '
             'checker once, 12% do so while a file_dep is missing and reset-dep is issued (after an ignore in half of them); 12% mutations of corpus seeds; exhaustive tier: every command word of length <= 1 (quick; '
-            'length 2 sampled) / <= 2 (thorough; length 3 sampled) over a 15-letter alphabet on 5 fixed task sets; '
+            'length 2 sampled) / <= 2 (thorough; length 3 sampled) over a 15-letter alphabet on 6 fixed task sets (DB location rotating); '
             'non-trivial = a command changed the DB and a later run both skipped/ignored and executed; distinct = '
             'distinct rendered case',
     'assumptions': ['a file\'s content never changes while its mtime stays the same (MD5Checker\'s premise); mtimes are '
@@ -100,6 +109,33 @@ META = {
     'models': ['M2', 'M8'],
 }
 
+def sig_delayed_creates(w):
+    """the (shrunk) witness still needs a creator delayed with `creates=`, and a forget / ignore / reset-dep whose
+    arguments reach a task of that creator (or the `executed` task under -s) comes at or before the failing op"""
+    f = w.get('failed') or {}
+    case = w.get('case') or {}
+    tasks = case.get('tasks') or []
+    mine = set()
+    for j, t in enumerate(tasks):
+        if (t.get('delayed') or {}).get('creates'):
+            mine |= {j} | set(k for k, u in enumerate(tasks) if u.get('sub_of') == j)
+    if not mine:
+        return False
+    if f.get('clause', '').split('-')[0] not in ('forget', 'ignore', 'reset'):
+        return False
+    for op in case['ops'][:f.get('op', len(case['ops'])) + 1]:
+        if op[0] == 'forget':
+            a = op[1]
+            if not a['names'] or a.get('sub') or set(a['names']) & mine:
+                return True
+        elif op[0] in ('ignore', 'reset'):
+            if not op[1] or set(op[1]) & mine:
+                return True
+    return False
+
+
+SIGNATURES = {'delayed-creates-placeholder': sig_delayed_creates}
+
 EMPTY = {'values': None, 'result': None, 'checker': None, 'deps': None, 'fstate': [], 'ign': False}
 EXECUTED = ('ok', 'fail', 'save-missing')
 
@@ -109,11 +145,14 @@ EXECUTED = ('ok', 'fail', 'save-missing')
 
 def names_of(case):
     out = []
-    for i, t in enumerate(case['tasks']):
+    tasks = case['tasks']
+    for i, t in enumerate(tasks):
         if t.get('sub_of') is not None:
-            out.append('t%d:s%d' % (t['sub_of'], i))
+            g = t['sub_of']
+            out.append('%st%d:s%d' % ('_' if tasks[g].get('private') else '', g, i))
         else:
-            out.append('t%d' % i)
+            # a leading underscore makes a task "private" (hidden from `list`); commands must treat it like any other
+            out.append('%st%d' % ('_' if t.get('private') else '', i))
     return out
 
 
@@ -131,13 +170,105 @@ class Shift(object):
 # ----------------------------------------------------------------------------------------------
 # the world: statuslib's files/DB + a task graph
 
+# ---- value-saving / unusual `uptodate` forms (wave 4, audit #2).  Each is tied to the Lean model through the item of
+# M2 with the same decision rule and the same saved-value life cycle:
+#   ['tuple', b]   (fn, [b]) with positional args            -> custom b
+#   ['taskonly', b] callable taking only `task`               -> custom b
+#   ['truthy', v]  callable returning a non-bool ('x', 1, 0, '', []): falsy = not up-to-date, never "None"  -> custom bool(v)
+#   ['cfgdict', k] tools.config_changed(<dict k>): digest of the sorted JSON   -> cfg (100 + digest class of k)
+#   ['timeout'] tools.timeout(10**9), ['tsunchanged'] tools.check_timestamp_unchanged(<file never touched>),
+#   ['ucalc'] a user UptodateCalculator subclass: false without their saved value, true once a successful execution
+#   saved it -- the rule of run_once; their value keys are translated to the model's run-once flag  -> runOnce
+CFG_DICTS = [{'b': 1, 'a': [2]}, {'a': [2], 'b': 1}, {'a': [2], 'b': 1, 'c': None}]
+CFG_DICT_ID = [100, 100, 102]
+KFILE = 'kfile'                   # a file no history op ever touches (check_timestamp_unchanged)
+ONCE_KEYS = ('success-time', KFILE + '.st_mtime', 'ucalc')
+_CFG_HASH = {}
+
+
+def model_utd(u):
+    k = u[0]
+    if k in ('tuple', 'taskonly'):
+        return ['custom', bool(u[1])]
+    if k == 'truthy':
+        return ['custom', bool(u[1])]
+    if k == 'cfgdict':
+        return ['cfg', CFG_DICT_ID[u[1]]]
+    if k in ('timeout', 'tsunchanged', 'ucalc'):
+        return ['runOnce']
+    return list(u)
+
+
+def canon_values(db):
+    """translate the saved values of the helpers above into the model's vocabulary (in place)"""
+    if not isinstance(db, list) or db[:1] == ['exc']:
+        return db
+    for rec in db:
+        v = rec.get('values') if isinstance(rec, dict) else None
+        if not v:
+            continue
+        other = v.get('other')
+        if other:
+            for key in ONCE_KEYS:
+                if key in other:
+                    del other[key]
+                    v['runOnce'] = True
+            if not other:
+                del v['other']
+        if isinstance(v.get('cfg'), str) and v['cfg'] in _CFG_HASH:
+            v['cfg'] = _CFG_HASH[v['cfg']]
+    return db
+
+
 class GraphWorld(statuslib.World):
+    def _uptodate(self, item):
+        from doit import tools
+        from doit.dependency import UptodateCalculator
+        kind = item[0]
+        if kind == 'tuple':
+            return (lambda flag: flag, [bool(item[1])])
+        if kind == 'taskonly':
+            val = bool(item[1])
+            return lambda task: val
+        if kind == 'truthy':
+            val = item[1]
+            return lambda task, values: val
+        if kind == 'cfgdict':
+            c = tools.config_changed(dict(CFG_DICTS[item[1]]))
+            _CFG_HASH[c._calc_digest()] = CFG_DICT_ID[item[1]]
+            return c
+        if kind == 'timeout':
+            return tools.timeout(10 ** 9)
+        if kind == 'tsunchanged':
+            if not os.path.exists(KFILE):
+                with open(KFILE, 'w') as f:
+                    f.write('k')
+                os.utime(KFILE, ns=(T0 * statuslib.NS, T0 * statuslib.NS))
+            return tools.check_timestamp_unchanged(KFILE)
+        if kind == 'ucalc':
+            class Seen(UptodateCalculator):
+                def __call__(self, task, values):
+                    assert self.tasks_dict is not None and task.name in self.tasks_dict and callable(self.get_val)
+                    task.value_savers.append(lambda: {'ucalc': 1})
+                    return bool(values.get('ucalc'))
+            return Seen()
+        return statuslib.World._uptodate(self, item)
+
     def __init__(self, case):
         statuslib.World.__init__(self, case['backend'], case['checker'], len(case['tasks']),
                                  case['nsrc'] + len(case['tasks']))
         self.case = case
         self.names = names_of(case)
         self.executed = []
+        # where the DB file lives and how the commands are told (wave 4, audit #22)
+        self.db_loc = case.get('db_loc') or 'plain'
+        if self.db_loc == 'subdir':
+            os.makedirs(os.path.join('dbdir', 'sub'), exist_ok=True)
+            self.db = os.path.join('dbdir', 'sub', self.db)
+        elif self.db_loc == 'abs':
+            self.db = os.path.abspath(self.db)
+        elif self.db_loc == 'missing-dir':
+            self.db = os.path.join('no-such-dir', self.db)
 
     def _task_dict(self, i, with_name=None):
         world = self
@@ -178,7 +309,16 @@ class GraphWorld(statuslib.World):
             subs = [j for j, u in enumerate(tasks) if u.get('sub_of') == i] if t.get('group') else None
             # one `def` line for every creator: the loader orders creators by line number (stable)
             def creator(i=i, subs=subs, self=self): return self._subs_gen(subs) if subs else self._task_dict(i)  # noqa
-            ns['task_t%d' % i] = creator
+            dl = t.get('delayed')
+            if dl:
+                # @create_after(executed=E[, creates=[name]]): in a run the creator is evaluated after E; forget / ignore /
+                # reset-dep evaluate it while loading -- unless `creates` is given: then they see a bare placeholder
+                from doit import create_after
+                kw = {'executed': self.names[dl['after']]}
+                if dl.get('creates'):
+                    kw['creates'] = [self.names[i]]
+                creator = create_after(**kw)(creator)
+            ns['task_%st%d' % ('_' if t.get('private') else '', i)] = creator
         return ns
 
     def doit(self, argv, reporter=None):
@@ -188,6 +328,11 @@ class GraphWorld(statuslib.World):
         from doit.cmd_base import ModuleTaskLoader
         ns = self.namespace()
         cfg = {'dep_file': self.db, 'backend': self.backend, 'verbosity': 0, 'check_file_uptodate': self.checker}
+        if self.db_loc == 'cli':
+            # DB file, backend and checker given as command line options of every command instead of DOIT_CONFIG
+            cfg = {'verbosity': 0}
+            argv = [argv[0], '--db-file', self.db, '--backend', self.backend,
+                    '--check_file_uptodate', self.checker] + list(argv[1:])
         if self.case.get('default') is not None:
             cfg['default_tasks'] = [self.names[t] for t in self.case['default']]
         if reporter is not None:
@@ -285,12 +430,15 @@ def run_steps(events, index):
 
 def forget_argv(names, a):
     argv = ['forget']
-    if a.get('sub'):
-        argv.append('-s')
+    long_ = a.get('long')       # every option of cmd_forget in both spellings: -s/--follow-sub, -a/--all,
+    if a.get('sub'):            # --disable-default / --enable-default (the default, spelled out)
+        argv.append('--follow-sub' if long_ else '-s')
     if a.get('all'):
-        argv.append('--all')
+        argv.append('--all' if long_ in (None, True) else '-a')
     if a.get('dd'):
         argv.append('--disable-default')
+    elif a.get('ed'):
+        argv.append('--enable-default')
     return argv + [arg_name(names, t) for t in a['names']]
 
 
@@ -314,7 +462,7 @@ def run_history(case):
 
     def canon_db():
         try:
-            return statuslib.canon_impl_db(w.dump(), shift)
+            return canon_values(statuslib.canon_impl_db(w.dump(), shift))
         except Exception as ex:  # noqa
             return ['exc', type(ex).__name__]
 
@@ -345,6 +493,10 @@ def run_history(case):
             rep = statuslib.RecordingReporter()
             code, out, err = w.doit(argv, rep)
             o['steps'] = run_steps(rep.events, index)
+            done_ = set(n for k, n, _ in rep.events if k in FINAL)
+            # first select_task pass (get_status) without a final report: the run stopped before the second pass
+            o['unfinished'] = sorted(set(index[n] for k, n, _ in rep.events
+                                         if k == 'get_status' and n not in done_ and n in index))
             o['executed'] = list(w.executed)
         elif kind == 'forget':
             o['fs'] = None
@@ -386,9 +538,9 @@ def run_history(case):
 # requests to the Lean driver
 
 def model_tasks(case):
-    return [{'deps': list(t['deps']), 'targets': list(t['targets']), 'uptodate': [list(u) for u in t['uptodate']],
+    return [{'deps': list(t['deps']), 'targets': list(t['targets']), 'uptodate': [model_utd(u) for u in t['uptodate']],
              'task_dep': list(t['task_dep']), 'setup': list(t['setup']), 'sub_of': t.get('sub_of'),
-             'calc_dep': list(t.get('calc_dep') or [])}
+             'calc_dep': list(t.get('calc_dep') or []) + ([t['delayed']['after']] if t.get('delayed') else [])}
             for t in case['tasks']]
 
 
@@ -417,7 +569,8 @@ def to_requests(case, obs):
             ops_m.append(['checker', statuslib.CK_MODEL[op[1]]])
             ops_p.append(['checker', statuslib.CK_MODEL[op[1]]])
         elif kind == 'run':
-            m = ['run', {'order': [t for t, _ in o['steps'] if t >= 0], 'always': bool(op[1].get('always')),
+            m = ['run', {'order': [t for t, _ in o['steps'] if t >= 0], 'unfinished': o.get('unfinished') or [],
+                         'always': bool(op[1].get('always')),
                          'plan': model_plan(op[1].get('plan'), case)}]
             ops_m.append(m)
             ops_p.append(m)
@@ -483,6 +636,10 @@ def evaluate(cases, workdir=None):
     return res
 
 
+def has_creates(case):
+    return any((t.get('delayed') or {}).get('creates') for t in case['tasks'])
+
+
 def _cnt(r, key, n=1):
     r['stats'][key] = r['stats'].get(key, 0) + n
 
@@ -490,6 +647,14 @@ def _cnt(r, key, n=1):
 def compare(case, obs, steps, r):
     """(K) model of the code vs implementation"""
     names = names_of(case)
+    if case.get('db_loc') == 'missing-dir':
+        _cnt(r, 'k-skipped:db-in-missing-directory (outside the model, monitors only)')
+        return
+    if has_creates(case):
+        # forget / ignore / reset-dep see bare placeholders for these creators (open finding delayed-creates-placeholder):
+        # the model mirrors the evaluated creator; monitors only
+        _cnt(r, 'k-skipped:delayed creator with `creates` (monitors only)')
+        return
     for i, (op, o, ms) in enumerate(zip(case['ops'], obs, steps)):
         kind = op[0]
 
@@ -557,6 +722,16 @@ def compare(case, obs, steps, r):
 def monitor(case, obs, steps, r):
     """(P) the statement of C13 on the implementation's observations"""
     names = names_of(case)
+    if case.get('db_loc') == 'missing-dir':
+        # there is no DB and none can be created: no command may claim success
+        for i, (op, o) in enumerate(zip(case['ops'], obs)):
+            if op[0] in ('run', 'forget', 'ignore', 'reset'):
+                _cnt(r, 'mon:db-missing-dir:%s:%s' % (op[0], o['crash'] or 'exit-%s' % (o['code'],)))
+                message_only = op[0] == 'ignore' and not op[1]      # prints a message, never touches the DB
+                if o['code'] == 0 and not message_only:
+                    r['viol'].append({'op': i, 'clause': 'db-missing-dir', 'detail':
+                                      '%s exited 0 although the DB file cannot be created (directory missing)' % op[0]})
+        return
     n = len(names)
     tasks = case['tasks']
     pending_forgot = set()      # forgotten, consults saved state, not yet seen in a run
@@ -701,10 +876,15 @@ def render(case):
     out = ['backend=%s checker=%s default_tasks=%s' % (case['backend'], case['checker'],
                                                       None if case.get('default') is None
                                                       else [names[t] for t in case['default']])]
+    if (case.get('db_loc') or 'plain') != 'plain':
+        out[0] += ' db-file=%s' % {'subdir': 'in a sub-directory', 'abs': 'absolute path', 'missing-dir': 'in a directory that does not exist',
+                                   'cli': 'given by --db-file/--backend/--check_file_uptodate on every command line'}[case['db_loc']]
     for i, t in enumerate(case['tasks']):
         bits = []
         if t.get('group'):
             bits.append('group')
+        if t.get('delayed'):
+            bits.append('@create_after(executed=%s%s)' % (names[t['delayed']['after']], ', creates=[%s]' % names[i] if t['delayed'].get('creates') else ''))
         for key, label in (('deps', 'file_dep'), ('targets', 'targets')):
             if t[key]:
                 bits.append('%s=%s' % (label, [fname(p) for p in t[key]]))
@@ -753,6 +933,13 @@ def valid_case(case):
                 return False
         if t.get('sub_of') is not None and not (0 <= t['sub_of'] < n and case['tasks'][t['sub_of']].get('group')):
             return False
+        if t.get('delayed'):
+            e = t['delayed']['after']
+            if not (0 <= e < i) or t.get('sub_of') is not None:
+                return False
+            te = case['tasks'][e]
+            if te.get('group') or te.get('sub_of') is not None or te.get('delayed'):
+                return False
         if t.get('group'):
             subs = [j for j, u in enumerate(case['tasks']) if u.get('sub_of') == i]
             if t['task_dep'] != subs or not subs:
@@ -766,6 +953,8 @@ def drop_task(case, k):
     """the case without task k (references removed, indices and target paths shifted)"""
     tasks = case['tasks']
     if tasks[k].get('group'):
+        return None
+    if any((t.get('delayed') or {}).get('after') == k for t in tasks):
         return None
     n = len(tasks)
     nsrc = case['nsrc']
@@ -788,6 +977,8 @@ def drop_task(case, k):
         u['task_dep'] = [tmap(x) for x in t['task_dep'] if x != k]
         u['setup'] = [tmap(x) for x in t['setup'] if x != k]
         u['calc_dep'] = [tmap(x) for x in (t.get('calc_dep') or []) if x != k]
+        if t.get('delayed'):
+            u['delayed'] = dict(t['delayed'], after=tmap(t['delayed']['after']))
         u['deps'] = [pmap_(p) for p in t['deps'] if pmap_(p) is not None]
         u['targets'] = [pmap_(p) for p in t['targets'] if pmap_(p) is not None]
         if t.get('sub_of') is not None:
@@ -865,6 +1056,13 @@ def shrink_candidates(case):
                 yield dict(case, ops=ops[:i] + [[op[0], op[1][:j] + op[1][j + 1:]]] + ops[i + 1:])
     if case.get('default') is not None:
         yield dict(case, default=None)
+    if (case.get('db_loc') or 'plain') != 'plain':
+        yield dict(case, db_loc='plain')
+    for i, t in enumerate(case['tasks']):
+        if t.get('delayed'):
+            yield dict(case, tasks=case['tasks'][:i] + [dict(t, delayed=None)] + case['tasks'][i + 1:])
+        if t.get('private'):
+            yield dict(case, tasks=case['tasks'][:i] + [dict(t, private=False)] + case['tasks'][i + 1:])
     if case['backend'] != 'json':
         yield dict(case, backend='json')
     if case['checker'] != 'md5':
@@ -935,6 +1133,8 @@ def trace_of(case, obs):
 # ----------------------------------------------------------------------------------------------
 # generation
 
+UTD_POOL_W4 = [['tuple', True], ['tuple', False], ['taskonly', True], ['truthy', 'x'], ['truthy', 0], ['truthy', ''],
+               ['cfgdict', 0], ['cfgdict', 1], ['cfgdict', 2], ['timeout'], ['tsunchanged'], ['ucalc']]
 UTD_POOL = [['const', True], ['const', True], ['const', False], ['runOnce'], ['cfg', 1], ['cfg', 2],
             ['custom', True], ['custom', None], ['none']]
 
@@ -950,11 +1150,29 @@ def gen_tasks(rng):
             g = len(tasks)
             nsub = rng.choice([1, 2, 2])
             tasks.append({'deps': [], 'targets': [], 'uptodate': [], 'task_dep': list(range(g + 1, g + 1 + nsub)),
-                          'setup': [], 'sub_of': None, 'group': True})
+                          'setup': [], 'sub_of': None, 'group': True, 'private': rng.random() < 0.2})
             for _ in range(nsub):
                 tasks.append(gen_task(rng, tasks, nsrc, len(tasks), sub_of=g))
         else:
             tasks.append(gen_task(rng, tasks, nsrc, len(tasks), sub_of=None))
+            tasks[-1]['private'] = rng.random() < 0.15
+    if rng.random() < 0.22:
+        # one creator is delayed: @create_after(executed=<an earlier plain task>), a third of them with `creates`
+        plain = [j for j, t in enumerate(tasks) if not t.get('group') and t.get('sub_of') is None]
+        cands = [j for j, t in enumerate(tasks) if t.get('sub_of') is None and any(e < j for e in plain)]
+        if cands:
+            j = rng.choice(cands)
+            e = rng.choice([e for e in plain if e < j])
+            subs = set(k for k, t in enumerate(tasks) if t.get('sub_of') == j)
+            # a declared edge to a sub-task that does not exist yet when `run` loads the tasks is an invalid dodo (C18)
+            referenced = any(subs & set(t['task_dep'] + t['setup'] + (t.get('calc_dep') or []))
+                             for k, t in enumerate(tasks) if k != j and k not in subs)
+            # ... and a target of a task that does not exist yet gives no implicit task_dep (needs target_regex: C15)
+            own = subs | {j}
+            tg = set(p for k in own for p in tasks[k]['targets'])
+            referenced = referenced or any(tg & set(t['deps']) for k, t in enumerate(tasks) if k not in own)
+            if not referenced:
+                tasks[j]['delayed'] = {'after': e, 'creates': rng.random() < 0.33}
     return nsrc, tasks
 
 
@@ -967,7 +1185,7 @@ def gen_task(rng, tasks, nsrc, i, sub_of):
     targets = [nsrc + i] if rng.random() < 0.45 else []
     utd = []
     if rng.random() < 0.45:
-        utd = [list(rng.choice(UTD_POOL)) for _ in range(rng.choice([1, 1, 2]))]
+        utd = [list(rng.choice(UTD_POOL_W4 if rng.random() < 0.4 else UTD_POOL)) for _ in range(rng.choice([1, 1, 2]))]
     task_dep = [j for j in earlier if rng.random() < 0.3][:2]
     setup = [j for j in earlier if j not in task_dep and rng.random() < 0.25][:2]
     # calc_dep: providers are earlier plain tasks, preferably with saved state of their own (a file_dep)
@@ -1015,6 +1233,8 @@ def gen_forget(rng, n):
             a['names'] = gen_names(rng, n, unknown_p=0.3)
     if form.endswith('dd'):
         a['dd'] = True
+    a['long'] = rng.random() < 0.5          # --follow-sub / --all  vs  -s / -a
+    a['ed'] = (not a['dd']) and rng.random() < 0.15      # --enable-default spelled out
     return a
 
 
@@ -1028,6 +1248,32 @@ def gen_run(rng, tasks, fail_p=0.12):
     return ['run', {'sel': sel, 'always': rng.random() < 0.08, 'cont': fails or rng.random() < 0.3, 'plan': plan}]
 
 
+def sanitize_delayed_selection(case):
+    """A sub-task of a delayed creator named directly in a run selection (or in default_tasks) is looked up through
+    the creator's loader and waits for -- and inherits ignore / failure from -- the `executed` task as long as the
+    creator has not run in that run (control._process_filter: C15's subject, order dependent).  The C13 model gives
+    that edge to the creator's own task only, so such selections name the group instead."""
+    tasks = case['tasks']
+    sub_of_delayed = {k: t['sub_of'] for k, t in enumerate(tasks)
+                      if t.get('sub_of') is not None and tasks[t['sub_of']].get('delayed')}
+    if not sub_of_delayed:
+        return case
+
+    def fix(sel):
+        out = []
+        for x in sel:
+            x = sub_of_delayed.get(x, x)
+            if x not in out:
+                out.append(x)
+        return out
+    if case.get('default') is not None:
+        case['default'] = fix(case['default'])
+    for op in case['ops']:
+        if op[0] == 'run' and op[1].get('sel') is not None:
+            op[1]['sel'] = fix(op[1]['sel'])
+    return case
+
+
 def gen_case(rng):
     nsrc, tasks = gen_tasks(rng)
     n = len(tasks)
@@ -1036,13 +1282,16 @@ def gen_case(rng):
         default = sorted(set(rng.randrange(n) for _ in range(rng.randint(1, 2))))
     case = {'backend': rng.choice(statuslib.BACKENDS), 'checker': rng.choice(['md5', 'md5', 'timestamp']),
             'nsrc': nsrc, 'tasks': tasks, 'default': default, 'ops': []}
+    x = rng.random()
+    case['db_loc'] = ('plain' if x < 0.55 else 'subdir' if x < 0.68 else 'abs' if x < 0.81 else 'cli' if x < 0.97
+                      else 'missing-dir')
     ops = case['ops']
     cid = rng.randrange(1, 100)
     for p in range(nsrc):
         if rng.random() < 0.92:
             ops.append(['edit', p, cid + p])
-    # a DB pre-state reachable by runs
-    if rng.random() < 0.9:
+    # a DB pre-state reachable by runs (8%: the first command meets a DB that does not exist yet)
+    if rng.random() < 0.92:
         ops.append(['run', {'sel': None if default is None or rng.random() < 0.5 else list(range(n)),
                             'always': False, 'cont': True, 'plan': gen_plan(rng, tasks, 0.05)}])
     paths = list(range(nsrc)) + [t['targets'][0] for t in tasks if t['targets']]
@@ -1096,7 +1345,7 @@ def gen_case(rng):
         # cannot read, findings/pending/C03-md5-on-timestamp-state.md)
         first_run = next((k for k, o in enumerate(ops) if o[0] == 'run'), len(ops) - 1)
         ops.insert(rng.randint(first_run + 1, len(ops)), ['checker', 'timestamp'])
-    return case
+    return sanitize_delayed_selection(case)
 
 
 def mutate_case(rng, case):
@@ -1118,7 +1367,7 @@ def mutate_case(rng, case):
             c['ops'].insert(pos, ['reset', gen_names(rng, n)])
         elif len(c['ops']) > 2:
             del c['ops'][rng.randrange(len(c['ops']))]
-    return c
+    return sanitize_delayed_selection(c)
 
 
 # ----------------------------------------------------------------------------------------------
@@ -1143,6 +1392,10 @@ SMALL_SETS = [
     [_t(deps=[0]), _t(deps=[0], task_dep=[0]), _t(deps=[0], setup=[0]), _t(deps=[0], task_dep=[1], setup=[2])],
     # calc_dep: 1 gets calculated dependencies from 0 (which has its own dependency 3 over task_dep); 2 depends on 1
     [_t(deps=[0], task_dep=[3]), _t(deps=[0], calc_dep=[0]), _t(deps=[0], task_dep=[1]), _t(deps=[0])],
+    # wave 4: a private group whose creator is delayed (@create_after(executed=t0)), value-saving uptodate helpers
+    [_t(deps=[0]), dict(_t(group=True, task_dep=[2, 3]), private=True, delayed={'after': 0, 'creates': False}),
+     _t(deps=[0], sub_of=1, utd=[['timeout']]), _t(deps=[0], sub_of=1, setup=[2], utd=[['cfgdict', 0]]),
+     dict(_t(utd=[['ucalc']], task_dep=[1]), private=True)],
 ]
 
 SMALL_CMDS = [
@@ -1191,8 +1444,9 @@ def exhaustive_cases(maxlen, rng, sample=None):
                         ops.append(['run', {'sel': list(range(n)), 'always': False, 'cont': True, 'plan': {}}])
                 ops.append(['run', {'sel': None, 'always': False, 'cont': True, 'plan': {}}])
                 cases.append({'backend': statuslib.BACKENDS[k % 3], 'checker': statuslib.CHECKERS[(k // 3) % 2],
-                              'nsrc': 1, 'tasks': json.loads(json.dumps(tasks)), 'default': default, 'ops': ops,
+                              'db_loc': ['plain', 'subdir', 'abs', 'cli'][(k // 6) % 4], 'nsrc': 1, 'tasks': json.loads(json.dumps(tasks)), 'default': default, 'ops': ops,
                               'origin': 'exhaustive'})
+                sanitize_delayed_selection(cases[-1])
                 k += 1
     return cases
 
@@ -1237,11 +1491,25 @@ def process_batch(arg):
             st.count('has-group')
         if any(t.get('calc_dep') for t in case['tasks']):
             st.count('has-calc-dep')
+        for t in case['tasks']:
+            for u in t['uptodate']:
+                st.count('utd:' + u[0])
+        for t in case['tasks']:
+            if t.get('delayed'):
+                st.count('delayed-creator:%s%s' % ('group' if t.get('group') else 'plain', ' creates=' if t['delayed'].get('creates') else ''))
+        if any(t.get('private') for t in case['tasks']):
+            st.count('has-private-task')
+        st.count('db-loc:%s' % (case.get('db_loc') or 'plain'))
+        if not any(o[0] == 'run' for o in case['ops'][:case['nsrc'] + 1]):
+            st.count('first-command-on-missing-db')
         for op in case['ops']:
             if op[0] == 'forget':
                 a = op[1]
                 st.count('op:forget%s%s%s%s' % (' names' if a['names'] else ' no-names', ' -s' if a['sub'] else '',
                                                 ' --all' if a['all'] else '', ' --disable-default' if a['dd'] else ''))
+                for w_ in forget_argv(names_of(case), a)[1:]:
+                    if w_.startswith('-'):
+                        st.count('forget-option:' + w_)
             elif op[0] in ('ignore', 'reset'):
                 st.count('op:%s%s' % (op[0], ' names' if op[1] else ' no-names'))
             else:
@@ -1254,7 +1522,8 @@ def process_batch(arg):
                 shrunk += 1
                 did = True
                 try:
-                    small, r2 = shrink(case, work, budget=shrink_budget)
+                    known = any(sig(make_witness(case, r)) for sig in SIGNATURES.values()) if r['viol'] else False
+                    small, r2 = shrink(case, work, budget=12 if known else shrink_budget)
                 except Exception:  # noqa
                     small, r2 = case, r
             else:
